@@ -62,6 +62,11 @@ def pointsets(tier, seed):
         # main-blob points outrank its own members in its density ranking (fixed generators, independent of `seed`)
     ] + [('blob+%dstragglers-2d-g%d' % (ns, g), (lambda q: clip(np.vstack([np.array([0.65, 0.5]) + 0.03 * q.normal(size=(60, 2)), np.array([0.45, 0.5]) + 0.07 * q.normal(size=(ns, 2))]))[q.permutation(60 + ns)])(np.random.default_rng(g)), 8)
          for g, ns in ((1, 4), (4, 5), (27, 3), (10, 6))] + [
+        # exactly 2 n_points_min points (the smallest ellipsoid split() will touch) with a few stragglers: after the repair of
+        # the labels BOTH halves must still hold n_points_min points
+    ] + [(lambda q: (lambda nm: (lambda n: (lambda k: ('edge-2nmin-g%d' % g, clip(np.vstack([np.array([0.6, 0.5]) + 0.03 * q.normal(size=(n - k, 2)),
+                                                                                     np.array([0.45, 0.5]) + q.choice([0.03, 0.07, 0.12]) * q.normal(size=(k, 2))]))[q.permutation(n)], nm))(
+        int(q.integers(2, nm))))(2 * nm + int(q.integers(0, 4))))(int(q.choice([5, 8]))))(np.random.default_rng(g)) for g in (85, 88, 309)] + [
         ('uniform-ball-3d', clip(0.5 + 0.3 * (lambda x: x / np.linalg.norm(x, axis=1)[:, None] * r.uniform(0, 1, (len(x), 1)) ** (1 / 3))(r.normal(size=(120, 3)))), 6),
     ]
     if tier == 'thorough':
@@ -191,6 +196,31 @@ def subtree(args):
     use_repo()
     warnings.filterwarnings('ignore')
     from nautilus.bounds import Union
+    import nautilus.bounds.union as UM
+    # observe the mixture fit of split(): component weights and the two log-density columns (for the label-repair model)
+    split_rec = dict(w=[], lp=[])
+    if not getattr(UM.GaussianMixture, '_nv_proxy', False):
+        _RealGMM, _real_mvn = UM.GaussianMixture, UM.multivariate_normal
+
+        class RecGMM(_RealGMM):
+            _nv_proxy = True
+
+            def fit(self, X, y=None):
+                r = super().fit(X, y)
+                UM._nv_rec['w'].append(np.array(self.weights_))
+                return r
+
+        class RecMVN:
+            def logpdf(self, *a, **k):
+                r = _real_mvn.logpdf(*a, **k)
+                UM._nv_rec['lp'].append(np.array(r))
+                return r
+
+            def __getattr__(self, n):
+                return getattr(_real_mvn, n)
+        UM.GaussianMixture, UM.multivariate_normal = RecGMM, RecMVN()
+    UM._nv_rec = split_rec
+    topup_cases = {}
     rec = dict(ops=0, split_ok=0, trim_ok=0, refused_overlap=0, blocked=0, all_blocked=0, exc=0, sequences=0, sample_ops=0)
     ids = Ids()
     bidmap = {}
@@ -213,6 +243,8 @@ def subtree(args):
                 bidmap[id(b)] = bid(a)
             keepalive.append(v)
             pre = snap(v)
+            split_rec['w'].clear()
+            split_rec['lp'].clear()
             try:
                 with np.errstate(all='ignore'):
                     if op == 'S':
@@ -247,6 +279,22 @@ def subtree(args):
                 lines, ok = ['# exception'], False
             else:
                 lines, ok = events_for(pre, post, op, arg, ret, ids, bid, rec)
+                acc = [l for l in lines if l.startswith('AS ')]
+                if op == 'S' and acc and split_rec['w'] and len(split_rec['lp']) >= 2:
+                    # label repair of the accepted attempt: the recorded densities give the labels before the repair and
+                    # the ranking oracle; the model (TopUp.topup) must give the partition the implementation installed
+                    w, lp0, lp1 = split_rec['w'][-1], split_rec['lp'][-2], split_rec['lp'][-1]
+                    pm = np.vstack([lp0 + np.log(w[0]), lp1 + np.log(w[1])]).T
+                    lab0 = np.argmax(pm, axis=1)
+                    observed = acc[-1].split()[-1]
+                    if len(lab0) == len(observed):
+                        cnt = np.bincount(lab0, minlength=2)
+                        sm = int(np.argmin(cnt))
+                        other = np.flatnonzero(lab0 != sm)
+                        rank = [int(x) for x in other[np.argsort(-pm[other, sm])]]
+                        key = (nmin, ''.join(map(str, lab0)), tuple(rank), observed)
+                        topup_cases.setdefault(key, seq + [(op, arg)])
+                        rec['topup_needed'] = rec.get('topup_needed', 0) + int(cnt.min() < nmin)
             pl = path_lines + lines
             pi = path_impl + [('RET %s ' % ('true' if ret else 'false') + dump(post, ids, bid)) if exc is None else 'EXC ' + str(exc)]
             # emit this node as one sequence for the model
@@ -273,7 +321,7 @@ def subtree(args):
             if len(mism) > 10:
                 break
     return dict(name=name, first=first, rec=rec, fails=fails[:20], n_fails=len(fails), mism=mism[:5], n_cmp=len(impl_out),
-                sample=(model_in[:6] if model_in else []))
+                sample=(model_in[:6] if model_in else []), topup=[(k, v) for k, v in topup_cases.items()][:60])
 
 
 def fmt_seq(seq):
@@ -302,6 +350,42 @@ def main(run: Run, audit):
                    exhaustive=True, max_length=maxlen, point_sets=[s[0] for s in sets], operation_distribution=tot, comparisons=n_cmp,
                    disagreements_checked=len(mism), direct_predicate_failures=sum(r['n_fails'] for r in results),
                    samples=[r['sample'] for r in results[:2]])
+    # label-repair model inside Coq: TopUp.topup on the labels before the repair and the ranking oracle = installed partition
+    from common import coq_eval
+    import re as _re
+    tcases = []
+    seen_t = set()
+    for r in results:
+        for (k, sq) in r.get('topup', []):
+            if k not in seen_t and len(tcases) < 600:
+                seen_t.add(k)
+                tcases.append((r['name'], k, sq))
+    tbad = []
+    if tcases:
+        def bl(sx):
+            return '[' + '; '.join('true' if c == '1' else 'false' for c in sx) + ']'
+        rows = ['(%d, %s, [%s], %s)' % (k[0], bl(k[1]), '; '.join(map(str, k[2])), bl(k[3])) for _, k, _ in tcases]
+        body = '''From Coq Require Import List Arith Bool. Import ListNotations.
+Require Import NV.TopUp.
+Fixpoint beq (a b : list bool) : bool := match a, b with [] , [] => true | x :: a', y :: b' => Bool.eqb x y && beq a' b' | _, _ => false end.
+Definition cases : list (nat * list bool * list nat * list bool) := [%s].
+Eval vm_compute in (length cases, map fst (filter (fun ic => match snd ic with (n, l0, rk, obs) => negb (beq (topup n rk l0) obs) end) (combine (seq 0 (length cases)) cases))).
+''' % ';\n '.join(rows)
+        rc, out = coq_eval(body, 'cases_C13_topup', timeout=600)
+        m = _re.search(r'=\s*\(\s*(\d+)\s*,\s*(\[[^\]]*\]|nil)\s*\)', out.replace('\n', ' ').replace('%nat', ''))
+        if rc != 0 or not m:
+            tbad = [('coq', out[-300:])]
+        else:
+            tbad = [('case', int(x)) for x in _re.findall(r'\d+', m.group(2))]
+    run.cov.update(topup_cases=len(tcases), topup_cases_needing_repair=sum(1 for _, k, _ in tcases if min(k[1].count('0'), k[1].count('1')) < k[0]), topup_disagreements=len(tbad))
+    if tbad and not fails:
+        if tbad[0][0] == 'coq':
+            run.violation('in-Coq evaluation of the label-repair cases failed: ' + tbad[0][1], dict(kind='correspondence', broken='cases_C13_topup.v'), False)
+        else:
+            name, k, sq = tcases[tbad[0][1]]
+            run.violation('correspondence Union.split (repair of the cluster labels) ~ TopUp.topup broken (no property predicate fails) after %s on %s: the installed partition is not the one the model gives' % (fmt_seq(sq), name),
+                          dict(kind='correspondence', broken='union.py split label repair ~ TopUp.topup', point_set=name, sequence=[[o, a] for o, a in sq], n_points_min=k[0],
+                               labels_before=k[1], ranking=list(k[2]), installed=k[3]), False)
     if fails:
         fails.sort(key=lambda x: len(x[1][0]))
         name, (seq, what) = fails[0]
